@@ -86,8 +86,21 @@ theorem openLvls_ge (e : Expr) : ∀ p ∈ openLvls e, notLvl ≤ p := by
       · exact ih p hp
   | case6 => intro p hp; simp at hp
 
+theorem noCall_dot (r : List Tok) : NoCall (.p .dot :: r) := by
+  intro r' h; simp at h
+
 theorem bracket_le_unit (e : Expr) : bracketLvl ≤ unitLvl e := by
-  cases e <;> simp [unitLvl] <;> exact bracket_le_top
+  cases e <;> simp [unitLvl] <;> first | exact bracket_le_top | exact bracket_le_dot
+
+/-- a base that `visit_Path` writes bare is a closed primary -/
+theorem bare_facts (b : Expr) (h : bareBase b = true) :
+    unitLvl b = topLvl ∧ openLvls b = [] ∧ idxCount b = 0 := by
+  cases b <;> simp_all [bareBase, unitLvl, openLvls, idxCount]
+
+theorem length_ppSteps (ss : List String) : (ppSteps ss).length = 2 * ss.length := by
+  induction ss with
+  | nil => rfl
+  | cons s ss ih => simp [ppSteps, ih]; omega
 
 theorem length_le_needList (es : List Expr) : es.length ≤ needList es := by
   induction es with
@@ -97,6 +110,7 @@ theorem length_le_needList (es : List Expr) : es.length ≤ needList es := by
 theorem idxCount_lt_need (e : Expr) : idxCount e + 2 ≤ need e := by
   cases e <;> simp [idxCount, need]
   next a idx => have := length_le_needList idx; omega
+  next b s ss => omega
 
 /-- the first printed token of a safe expression is never a closing token -/
 theorem pp_head (e : Expr) (hs : safe e = true) (rest r' : List Tok) (c : P)
@@ -128,5 +142,11 @@ theorem pp_head (e : Expr) (hs : safe e = true) (rest r' : List Tok) (c : P)
   | array es => simp [pp] at h; obtain ⟨h1, _⟩ := h; subst h1; decide
   | set es => simp [pp] at h; obtain ⟨h1, _⟩ := h; subst h1; decide
   | index a idx => simp [pp] at h; obtain ⟨h1, _⟩ := h; subst h1; decide
+  | path b s ss =>
+      cases b with
+      | atom t =>
+          cases t <;> simp [pp, bareBase] at h <;> first | done | (obtain ⟨h1, _⟩ := h; subst h1; decide)
+      | name _ => simp [pp, bareBase] at h
+      | _ => simp [pp, bareBase] at h; obtain ⟨h1, _⟩ := h; subst h1; decide
 
 end EdbVerif.QL
